@@ -523,6 +523,7 @@ pub fn run_in(pool: &[KeyInfo], s: &Scenario, base: Option<&Path>, reversed: boo
     let log = std::fs::read_to_string(cwd.join("run.log")).unwrap_or_default();
     let mut events: Vec<String> = log.lines().map(|l| l.to_string()).collect();
     let top_events_in_order: Vec<String> = events.iter().filter_map(|e| e.strip_prefix('|').map(String::from)).collect();
+    let events_in_order = events.clone();
     events.sort();
     // each top-level inspection that ran recorded, among its materials, the link file of the inspection
     // that ran before it - with the digest of that file (no inspection command touches those files)
@@ -604,15 +605,14 @@ pub fn run_in(pool: &[KeyInfo], s: &Scenario, base: Option<&Path>, reversed: boo
             }
         }
     }
-    let ev_tok: Vec<String> = events.iter().map(|e| {
+    let ev_tok: Vec<String> = events_in_order.iter().map(|e| {
         let (p, n) = e.split_once('|').unwrap_or(("", e));
         format!("{}:{}", hexs(p), hexs(n))
     }).collect();
-    let mut ev_sorted = ev_tok.clone();
-    ev_sorted.sort();
-    let ev_str = if ev_sorted.is_empty() { "E0".to_string() } else { format!("E{} {}", ev_sorted.len(), ev_sorted.join(" ")) };
-    let top_only: Vec<String> = ev_sorted.iter().filter(|e| e.starts_with("-:")).cloned().collect();
-    let ev_err = if top_only.is_empty() { "E0".to_string() } else { format!("E{} {}", top_only.len(), top_only.join(" ")) };
+    // (the inspection commands in the order in which they were started - delegated evidence is visited
+    // in layout order and key-id order, so the sequence is determined, in failing runs too)
+    let ev_str = if ev_tok.is_empty() { "E0".to_string() } else { format!("E{} {}", ev_tok.len(), ev_tok.join(" ")) };
+    let ev_err = ev_str.clone();
     let summary_extra = match &res {
         Ok(Ok(mb)) => match &mb.metadata {
             MetadataWrapper::Link(l) if l.env.is_some() => Some(format!("environment = {:?}", l.env)),
@@ -676,6 +676,8 @@ pub struct Gen<'a> {
     /// keys of the enclosing layout's functionaries: a sub-layout's functionaries are drawn from them
     /// now and then (one person, two roles - and link files of the same name on two levels)
     pub reuse_keys: Vec<usize>,
+    /// every delegated sub-layout carries inspections (so that several sibling sub-layouts do)
+    pub inner_insp_always: bool,
 }
 
 /// A moment of verification: mostly near `base_now`, sometimes years away from it.
@@ -796,7 +798,7 @@ impl<'a> Gen<'a> {
                     delegated = true;
                     let subname = format!("{}.{}", name, prefix8(self.pool, k));
                     let subpath = if path.is_empty() { subname.clone() } else { format!("{}/{}", path, subname) };
-                    let inner_insp = allow_insp && !co && self.r.chance(1, 3);
+                    let inner_insp = allow_insp && !co && (self.inner_insp_always || self.r.chance(1, 3));
                     let (b, subdir) = match shared.take() {
                         // the same sub-layout and evidence, signed by this functionary
                         Some((mut b, d)) => {
@@ -892,11 +894,56 @@ impl<'a> Gen<'a> {
         (SBlock { dup_first_sig_as: None, sigs, meta: SMeta::Layout(layout), signed_over: None }, dir)
     }
 
+    /// Inspections of sibling sub-layouts that can tell which of them ran first: all inspections record
+    /// the one working directory, where the verifier leaves `<name>.link` after each - a rule of one
+    /// sub-layout's inspection requires or forbids the link file of an inspection of another sub-layout.
+    /// (The order in which delegated evidence is verified must therefore be determined.)
+    fn interfere(&mut self, dir: &mut SDir) {
+        let mut with_insp: Vec<(usize, Vec<String>)> = vec![];
+        for (n, (_, f)) in dir.files.iter().enumerate() {
+            if let SFile::Block(SBlock { meta: SMeta::Layout(l), .. }) = f {
+                if !l.inspect.is_empty() {
+                    with_insp.push((n, l.inspect.iter().map(|i| i.name.clone()).collect()));
+                }
+            }
+        }
+        if with_insp.len() < 2 {
+            return;
+        }
+        for a in 0..with_insp.len() {
+            if !self.r.chance(2, 3) {
+                continue;
+            }
+            let mut b = self.r.below(with_insp.len());
+            if b == a {
+                b = (b + 1) % with_insp.len();
+            }
+            let other = self.r.pick(&with_insp[b].1).clone();
+            let rule = if self.r.chance(1, 2) { ArtifactRule::Disallow(vp(&format!("{}.link", other))) } else { ArtifactRule::Require(vp(&format!("{}.link", other))) };
+            if let SFile::Block(SBlock { meta: SMeta::Layout(l), .. }) = &mut dir.files[with_insp[a].0].1 {
+                let k = self.r.below(l.inspect.len());
+                if self.r.chance(1, 2) {
+                    l.inspect[k].mats.insert(0, rule);
+                } else {
+                    l.inspect[k].prods.insert(0, rule);
+                }
+            }
+        }
+    }
+
     pub fn valid(&mut self, depth: usize, allow_insp: bool) -> Scenario {
         self.now = gen_now(self.r);
         let nown = 1 + self.r.below(2);
         let owners = self.pick_keys(nown, &[]);
-        let (block, dir) = self.valid_layout(depth, "", &owners, allow_insp);
+        let (block, mut dir) = self.valid_layout(depth, "", &owners, allow_insp);
+        if self.inner_insp_always {
+            self.interfere(&mut dir);
+            for n in 0..dir.subs.len() {
+                let mut sd = std::mem::take(&mut dir.subs[n].1);
+                self.interfere(&mut sd);
+                dir.subs[n].1 = sd;
+            }
+        }
         Scenario { block, caller_keys: owners, alias_ids: false, dir, name: if self.r.chance(1, 2) { Some("final".into()) } else { None }, now: self.now, faults: vec![], mem_refile: None, alias_described: false }
     }
 }
